@@ -24,6 +24,18 @@ Tie to /repo (built from its CURRENT tree, ASan+UBSan, asserts on):
       up x clause order x faulting clauses x loops x closures x recursion; the expected markers,
       result and unhandled report are computed from the property (closed form), independently of
       the models;
+  (3b) operation history x built-in (faultgen section 9): a prefix of float/double arithmetic that raises no
+      exception of the language but sets the hardware status flags (overflow to inf by mul / add / double /
+      array / loop / in a callee, underflow to 0 / denormal, inexact by division and conversions, nan from
+      inf - inf, 0 * inf, inf / inf, nan comparison, earlier built-ins that failed and were caught, none)
+      x every argument class of sqrt, log, exp, pow, sin, cos, tan (failing: which exception; non-failing:
+      which value) and print*, str*, ord, chr, length, assert* (never fail), the prefix placed before / after
+      the argument computation, at the start of main or in the caller, the call delivered through the same
+      chain coordinates as (3) (clause j levels up incl. main, order, absent = unhandled, depth, position;
+      loops, closures, recursion, module level).  Decision rule (harness/c03/faultgen.py HB_MATH): the outcome
+      of a built-in call is a function of its own arguments - the expected exception / value never looks at
+      the prefix, so "same outcome with any prefix" is what every program of the grid checks; the rows with
+      the empty prefix confirm the table itself.
   (4) block-boundary test: the same programs with the exception-table block split right after
       the faulting address (harness/c03/excdump.c): the VM must look the handler up for ip-1.
 
@@ -254,6 +266,63 @@ def coords_key(coords):
     return re.sub(r"[^A-Za-z0-9:#_-]", "_", coords)
 
 
+# ------------------------------------------------------------------ built-in status flags (1b)
+
+def builtin_flags_part(ctx, lib):
+    """harness/c03/bidrive.c calls the real libvm_execute_build_in with every subset of the five status flags
+    preset; the rows (before, own, observed) are evaluated by coqc with BuiltinFlags.rows_ok."""
+    drv = common.cc_driver("bidrive", ["c03/bidrive.c"], lib)
+    try:
+        p = subprocess.run([drv], stdout=subprocess.PIPE, stderr=subprocess.DEVNULL, env=RUN_ENV, timeout=120)
+        out = p.stdout.decode(errors="replace")
+    except subprocess.TimeoutExpired:
+        out = ""
+    rows = []
+    for l in out.splitlines():
+        f = l.split()
+        if len(f) == 7 and f[0] == "ROW":
+            rows.append((f[1], f[2], int(f[3]), int(f[4]), int(f[5]), f[6]))
+    if "DONE" not in out or not rows:
+        ctx.correspondence_broken("builtin-flags-driver", {"error": "bidrive did not finish", "output": out[-800:]})
+        return
+
+    def model(own):          # python copy of BuiltinFlags.classify, only used to LOCATE a differing row
+        return 1 if own & 1 else 4 if own & 2 else 5 if own & 4 else 6 if own & 8 else 0
+    vfile = os.path.join(ctx.outdir, "BuiltinRows.v")
+    with open(vfile, "w") as f:
+        f.write("From Coq Require Import List NArith.\nFrom NV Require Import Exc.BuiltinFlags.\nImport ListNotations.\n"
+                "Local Open Scope N_scope.\nDefinition rows : list (N * N * N) := [\n")
+        f.write(";\n".join("(%d, %d, %d)" % (r[2], r[3], max(r[4], 0) if r[4] >= 0 else 99) for r in rows))
+        f.write("].\nExample rows_agree_with_model : rows_ok rows = true.\nProof. vm_compute. reflexivity. Qed.\n")
+    rc, so, se = common.sh("coqc -Q %s NV -o %s %s" % (os.path.join(common.VERIF, "coq"), vfile + "o", vfile), timeout=300)
+    differing = [r for r in rows if model(r[3]) != r[4]]
+    wrong_value = [r for r in rows if r[4] == 0 and r[5] == "0"]
+    ctx.obligation("BuiltinFlags.rows_ok on %d rows of libvm_execute_build_in (every flag subset x built-in x argument class)" % len(rows),
+                   rc == 0, (so + se)[-600:])
+    for ext in ("", "o", "ok", "os"):
+        try:
+            os.unlink(vfile + ext)
+        except OSError:
+            pass
+    try:
+        os.unlink(os.path.join(ctx.outdir, "BuiltinRows.glob"))
+    except OSError:
+        pass
+    ctx.count(evaluations=len(rows), nontrivial=len({(r[0], r[1], r[3]) for r in rows if r[2] & ~r[3] & 15}))
+    if rc != 0 or differing:
+        r = (differing or rows)[0]
+        ctx.correspondence_broken("builtin-flags-model-vs-libvm", {
+            "builtin": r[0], "argument": r[1], "flags_before_mask": r[2], "own_flags_mask": r[3],
+            "model_outcome": model(r[3]), "observed_except_no (0 = value)": r[4], "differing_rows": len(differing),
+            "note": "mask bits: 1 divbyzero, 2 invalid, 4 overflow, 8 underflow, 16 inexact; the outcome must not depend on flags_before"})
+    if wrong_value:
+        r = wrong_value[0]
+        ctx.correspondence_broken("builtin-value-differs-from-libm", {"builtin": r[0], "argument": r[1], "flags_before_mask": r[2]})
+    ctx.coverage.setdefault("parts", {})["builtin_flags"] = {
+        "rows": len(rows), "builtins": sorted({r[0] for r in rows}), "rows_with_stale_exception_flag_before": len([r for r in rows if r[2] & ~r[3] & 15]),
+        "raising_rows": len([r for r in rows if r[4] > 0]), "coqc_rows_ok": rc == 0}
+
+
 # ------------------------------------------------------------------ the check
 
 def run(ctx):
@@ -306,6 +375,11 @@ def run(ctx):
     t1 = time.time()
     exctab_part.run_exctab(ctx, lib=lib)
     timing["exctab_s"] = round(time.time() - t1, 1)
+
+    # ---- (1b) built-in exception decision: model (Exc/BuiltinFlags.v run_builtin) vs libvm_execute_build_in
+    t1 = time.time()
+    builtin_flags_part(ctx, lib)
+    timing["builtin_flags_s"] = round(time.time() - t1, 1)
 
     # ---- programs: corpus first, then the generated family
     fam = []                                      # (pid, source, expected, coords)
@@ -361,6 +435,29 @@ def run(ctx):
                           {"kind": "program", "program": src, "case": {"id": pid, "coords": coords},
                            "expected": exp, "observed": {k: (r or {}).get(k) for k in ("outcome", "unhandled", "out", "status", "text")}})
     stats.update({"family_bad_" + k: v for k, v in per_class.items()})
+    # operation history x built-in: distribution and verdict per (prefix, built-in/argument class)
+    hb_prefix, hb_builtin, hb_place, hb_cells, hb_dep = (collections.Counter() for _ in range(5))
+    for i, (pid, src, exp, coords) in enumerate(fam):
+        parts = coords.split(":")
+        if "hb" not in parts[:2]:
+            continue
+        o = parts.index("hb")
+        b, cls, prefix, place = parts[o + 1:o + 5]
+        run = ("fails:" + cls.split("/")[0]) if (exp.get("faults", 0) > 0 or exp["kind"] == "unhandled") else ("ok:" + cls.split("/")[1])
+        hb_prefix[prefix] += 1
+        hb_builtin["%s %s" % (b, run)] += 1
+        hb_place[place if o == 0 else parts[0]] += 1
+        hb_cells[(prefix, b, run)] += 1
+        if i in bad_ids:
+            hb_dep["%s after %s" % ("%s %s" % (b, run), prefix)] += 1
+    if hb_cells:
+        ctx.coverage["history_x_builtin"] = {
+            "programs": sum(hb_cells.values()), "cells_prefix_x_builtin_class": len(hb_cells),
+            "per_prefix": dict(sorted(hb_prefix.items())), "per_builtin_argument_class": dict(sorted(hb_builtin.items())),
+            "per_placement": dict(hb_place),
+            "outcome_differs_from_rule (built-in, argument class, prefix)": dict(sorted(hb_dep.items())[:40]),
+            "rule": "expected outcome = table of the built-in's own argument class (faultgen.HB_MATH / HB_OTHER); it never "
+                    "depends on the prefix; rows with prefix `none` confirm the table"}
 
     # ---- command-line tool: unhandled -> non-zero exit status and the report on stdout
     t1 = time.time()
@@ -401,6 +498,11 @@ def run(ctx):
     vsteps = 30000 if ctx.tier == "quick" else 150000
     work = []
     for i, (pid, src, exp, coords) in enumerate(fam):
+        if ctx.tier == "quick" and "hb" in coords.split(":")[:2] and i % 4 and i not in bad_ids:
+            # history x built-in programs share their call structure with the rest of the family: in the quick
+            # tier one in four goes through the module-level pipeline as well (all of them were run above)
+            stats["modules_skipped_quick"] += 1
+            continue
         path = os.path.join(tmp, "fam%d.nev" % i)
         open(path, "w").write(real(src))
         work.append(("fam", i, "P%d" % i, path, tmp, True))
@@ -565,7 +667,8 @@ def run(ctx):
         "fault programs: templates kind(13 + FFI record arguments with nil string / nil nested-record fields in every position, "
         "callee with a side effect) + faults in module-level initialisers (direct / rethrown out of called functions); kind(13) x argument position k(0..2) x nesting depth d(0..3 frames under construction) x clause "
         "j(0..3) levels up x clause order(first,last,only,dup,catch-all,absent) + faulting clauses + loops + closures + recursion + "
-        "controls, seeded; expected markers/result/unhandled report from the property's closed form; non-trivial = a fault is "
+        "controls + operation history (21 prefixes of non-faulting float/double arithmetic) x built-in argument class (33 "
+        "failing/non-failing pairs of the 7 math built-ins + 18 never-failing calls) x placement, seeded; expected markers/result/unhandled report from the property's closed form; non-trivial = a fault is "
         "actually raised; modules: every corpus + generated module through the extracted checker and the layout check; lock-step "
         "of the shape machine on every traced run, distinct (code size, table size, #faults, first fault address) counted; "
         "block-boundary: table split right after the first faulting address")
@@ -575,7 +678,8 @@ def run(ctx):
     ctx.coverage["exhaustive"] = False
     ctx.assumptions += [
         "tuple indices are compile-time constants in Never, so index_out_of_bounds on tuples cannot be raised at run time: not generated",
-        "overflow/underflow/inexact are never raised by the core on the pinned tree (fetestexcept only maps invalid and divbyzero); not generated",
+        "overflow and underflow are raised by math built-ins only (exp, pow, sin/tan of a subnormal); float/double arithmetic of the "
+        "VM never raises them (it yields inf / 0 / nan silently) - generated as operation history in front of built-in calls",
         "operand kinds flowing through locals/parameters (C01/C02) and arity of dynamic callees (ArityStuck) are outside the shape machine",
         "the shape machine lets every operation fault at every address: theorems cover more faults than the VM can raise",
         "FUNC_FFI raises with ip advanced past its descriptors: the VM looks up some address of the FFI body, which the layout "
